@@ -66,7 +66,10 @@ def one_case(rng, tier):
     grid = [0, 0, 0.25, 0.5, 0.5, 1.0, 1.0, 2.0, 3.0]
     for p in range(rng.choice([1, 1, 2, 3])):
         prods.append([[rng.choice(grid), 'n0', rng.randrange(6), 1] for _ in range(rng.randrange(1, 10))])
-    return {'prog': prog, 'producers': prods, 'awaiting': rng.random() < 0.5}
+    case = {'prog': prog, 'producers': prods, 'awaiting': rng.random() < 0.5}
+    if rng.random() < 0.2:
+        case['t0'] = 1.7e9          # a clock that reads like time.time(), not like a stopwatch
+    return case
 
 
 def blocked_spans(log, nid):
